@@ -37,6 +37,8 @@ type Result struct {
 	Alts  []*Result `json:"alts,omitempty"`
 	VA    *bool     `json:"va,omitempty"` // model only: document a / b satisfies the validity hypothesis of total_no_panic
 	VB    *bool     `json:"vb,omitempty"`
+	FA    *bool     `json:"fa,omitempty"` // model only: every schema of document a / b is at most 24 levels deep, $refs followed (hypothesis of terminates_acyclic)
+	FB    *bool     `json:"fb,omitempty"`
 }
 
 func (r *Result) decode() {
